@@ -818,7 +818,7 @@ fn run_e2e(e: &E2e) -> (Val, Vec<String>) {
     (Val::L(outs), tags)
 }
 
-const E2E_ALPHA: &[&str] = &["a", "b", "a", "b", "c", "0", ".", "-"];
+const E2E_ALPHA: &[&str] = &["a", "b", "a", "b", "c", "0", ".", "-", "$"];
 
 fn gen_e2e(rng: &mut Rng) -> E2e {
     let nw = rng.range(1, 3);
@@ -1306,8 +1306,8 @@ fn gen_e4(rng: &mut Rng) -> E4 {
 }
 
 // ------------------------------------------------------------------ generators
-const ALPHA: &[&str] = &["a", "b", "a", "b", "c", "0", ".", "-", "ä", "ª", "²", "_", "ǅ", "„"];
-const ALPHA_G: &[&str] = &["a", "b", "a", "b", "0", ".", "ä", "e\u{301}", "😀", "n\u{303}", "ª", "²", "_", "\u{345}", "ⅷ"];
+const ALPHA: &[&str] = &["a", "b", "a", "b", "c", "0", ".", "-", "ä", "ª", "²", "_", "ǅ", "„", "$"];
+const ALPHA_G: &[&str] = &["a", "b", "a", "b", "0", ".", "ä", "e\u{301}", "😀", "n\u{303}", "ª", "²", "_", "\u{345}", "ⅷ", "+"];
 const SEAMY: &[&str] = &["\u{301}", "🇩", "🇪", "\u{1100}", "\u{1161}", "\u{200d}", "क", "\u{94d}", "\r", "\n"];
 
 fn unit(rng: &mut Rng, g: bool, seam: bool) -> &'static str {
